@@ -735,7 +735,7 @@ been initialized
 
         render_size: Size = render_data[Renderable].size
         height = render_size.height
-        pad_left, _, _, pad_bottom = padding._get_exact_dimensions_(render_size)
+        pad_left, pad_top, _, pad_bottom = padding._get_exact_dimensions_(render_size)
         render_iter = RenderIterator._from_render_data_(
             self,
             render_data,
@@ -752,6 +752,7 @@ been initialized
         write = output.write
         flush = output.flush
         first_frame_written = False
+        writing_first_frame = False
 
         try:
             # first frame
@@ -761,6 +762,7 @@ been initialized
                 return
 
             try:
+                writing_first_frame = True
                 write(frame.render_output)
                 flush()
             except KeyboardInterrupt:
@@ -823,6 +825,11 @@ been initialized
             if first_frame_written:
                 # Move the cursor to the last line to prevent "overlaid" output
                 write(cursor_down(height + pad_bottom - 1))
+                flush()
+            elif writing_first_frame:
+                # Interrupted while writing the first frame; the cursor may be anywhere
+                # within the padded region
+                write(cursor_down(pad_top + height + pad_bottom - 1))
                 flush()
 
     def _clear_frame_(
